@@ -103,9 +103,24 @@ class _PrepInterp(_UnitsInterp):
         short = name.split(".")[-1]
         if short == "isarray":
             return isinstance(args[0], Sym) and args[0].op == "masked"
+        if short == "ndim":
+            return 2
+        if short == "shape":
+            return Sym("shape_of", args[0])
+        if short in ("ravel", "asarray", "broadcast_to"):
+            # which mask entries are applied is R37p's question; the units table abstracts the mask away
+            return args[0]
         if name.endswith("ma.array"):
             return Sym("masked", kwargs.get("data", args[0] if args else None))
         return super().ext_call(name, args, kwargs, node)
+
+    def sym_compare(self, op, left, right, node):
+        if isinstance(left, Sym) and isinstance(right, Sym) and left.op == right.op == "shape_of":
+            if left == right:
+                return isinstance(op, ast.Eq)
+            r = self.decide(Sym("same_shape", left, right), node)
+            return r if isinstance(op, ast.Eq) else not r
+        return super().sym_compare(op, left, right, node)
 
 
 def r36_units(repo, sink):
@@ -183,10 +198,7 @@ def r36_units(repo, sink):
             continue
         it = _PrepInterp(repo, compatible, equivalent)
         info = Obj(label="info", fields={"units": b, "is_masked": masked, "mask": Sym("M"), "fill_value": None, "grid": None})
-        try:
-            got = it.run(pf, [Sym("qty", Sym("mag"), a), info], {"report_conversion": True})
-        except Raised as r:
-            got = ("raise", r.name)
+        outs = it.run_all(lambda it=it, info=info: it.run(pf, [Sym("qty", Sym("mag"), a), info], {"report_conversion": True}))
         X = Sym("masked", Sym("mag")) if masked else Sym("mag")
         if not compatible:
             want = ("raise", "FinamDataError")
@@ -194,9 +206,11 @@ def r36_units(repo, sink):
             want = (Sym("qty", X, a), None)
         else:
             want = (Sym("qty", Sym("conv", X, a, b), b), (a, b))
-        if got != want:
-            worst = worst or (f"quantity in unit a published into an output declared in unit b (dimension-equal={compatible}, factor-one={equivalent}, "
-                              f"mask in the info={masked}): prepare yields {got!r}, expected {want!r}")
+        for _decs, (kind, val) in outs:
+            got = ("raise", val.name) if kind == "raise" else val
+            if got != want:
+                worst = worst or (f"quantity in unit a published into an output declared in unit b (dimension-equal={compatible}, factor-one={equivalent}, "
+                                  f"mask in the info={masked}): prepare yields {got!r}, expected {want!r}")
     sink.check(worst is None, "R36", "units:prepare-table", pf,
                ok="prepare converts compatible non-equivalent units (also when it wraps the data into a masked array), refuses incompatible ones",
                bad=worst or "")
@@ -364,14 +378,8 @@ def r37_masktable(repo, sink):
     t = U(me.node)
     sink.check("this = this_grid.to_canonical(this)" in t and "other = other_grid.to_canonical(other)" in t, "R37", "mask-grid-pairing:masks_equal", me,
                ok="each mask is brought to canonical form with its own grid", bad="masks_equal canonicalises a mask with the other mask's grid")
-    # prepare applies info.mask
+    # prepare applies info.mask: decided semantically by R37p (mask alignment); here only the guards
     p = repo.func("src/finam/data/tools/core.py", "prepare")
-    arrs = [c for c in calls(p.node, "array") if "np.ma" in U(c.func)]
-    ok = len(arrs) == 2 and all({k.arg: U(k.value) for k in c.keywords}.get("mask") == "info.mask"
-                                and {k.arg: U(k.value) for k in c.keywords}.get("shrink") == "False"
-                                and {k.arg: U(k.value) for k in c.keywords}.get("fill_value") == "info.fill_value" for c in arrs)
-    sink.check(ok, "R37", "prepare-applies-info-mask", p, ok="both masked-array constructions use mask=info.mask, shrink=False, fill_value=info.fill_value",
-               bad="prepare does not apply exactly info.mask (mask / shrink / fill_value differ)")
     guards = [n for n in fn_walk(p.node) if isinstance(n, ast.If) and "info.is_masked" in U(n.test)]
     sink.check(len(guards) >= 2, "R37", "prepare-mask-guards", p, ok="mask applied under info.is_masked for quantified and plain data", bad="prepare misses a branch applying the mask")
 
@@ -1053,9 +1061,16 @@ class _GridCompat(FinamInterp):
         super().__init__(repo)
         self.close = close
 
+    def builtin(self, name, args, kwargs, node):
+        if name == "len" and isinstance(args[0], Sym) and args[0].op == "axis":
+            return args[0].args[1]
+        return super().builtin(name, args, kwargs, node)
+
     def ext_call(self, name, args, kwargs, node):
         short = name.split(".")[-1]
         if short == "allclose":
+            if isinstance(args[0], Sym) and isinstance(args[1], Sym) and args[0].op == "axis":
+                return args[0] == args[1]
             return self.close
         if short == "all" and isinstance(args[0], (bool, list, tuple)):
             return bool(args[0]) if isinstance(args[0], bool) else all(args[0])
@@ -1101,10 +1116,11 @@ def r15g_gridcompat(repo, sink):
     sg = repo.cls("StructuredGrid")
     f = repo.resolve(sg, "compatible_with", "method")
 
-    def grid(dim=2, crs=None, loc="CELLS", rev=False, shape=(3, 2), label="grid"):
+    def grid(dim=2, crs=None, loc="CELLS", rev=False, shape=(3, 2), label="grid", axes=None):
         o = Obj(cls=sg, label=label)
+        ax = axes or [Sym("axis", "x", 4), Sym("axis", "y", 3), Sym("axis", "z", 2)]
         o.fields.update(dim=dim, crs=crs, data_location=Sym("enum", "Location", loc), axes_reversed=rev,
-                        data_shape=shape, axes=[Sym("ax0"), Sym("ax1")][:dim] or [Sym("ax0")])
+                        data_shape=shape, axes=ax[:dim])
         return o
 
     base = dict(dim=2, crs=None, loc="CELLS", rev=False, shape=(3, 2))
@@ -1116,7 +1132,8 @@ def r15g_gridcompat(repo, sink):
         ("different data shape", {"shape": (4, 2)}, True, False),
         ("reversed axes order, transposed shape", {"rev": True, "shape": (2, 3)}, True, True),
         ("reversed axes order, same shape", {"rev": True, "shape": (3, 2)}, True, False),
-        ("axes coordinates differ", {}, False, False),
+        ("only the x coordinates differ", {"axes": [Sym("axis", "x-shifted", 4), Sym("axis", "y", 3)]}, True, False),
+        ("only the y coordinates differ", {"axes": [Sym("axis", "x", 4), Sym("axis", "y-shifted", 3)]}, True, False),
     ]
     worst = None
     for name, delta, close, want in cases:
@@ -1346,3 +1363,169 @@ def r16u_delivered_units(repo, sink):
             why = "delivers extra metadata taken from the request instead of the source"
         sink.check(why is None, "R16", f"delivered-units:{c.name}", f, ok=f"delivered units {units!r} derive from the source's info", bad=why or "")
     sink.floor("R16", "_get_info overrides interpreted", n, 4)
+
+
+# =========================================================================== R37p
+class _MArr(Obj):
+    """Array stand-in: concrete small shape, optional mask with an alignment tag."""
+
+
+def _marr(shape, masked=None, label="data"):
+    o = _MArr(label=label)
+    size = 1
+    for s_ in shape:
+        size *= s_
+    o.fields.update(shape=tuple(shape), size=size, ndim=len(shape), masked=masked)
+    return o
+
+
+class _PrepMaskInterp(FinamInterp):
+    """prepare() on plain arrays: tracks how the info's mask is aligned with the data.
+    Axiom (numpy): np.ma.array(data, mask=m) with m.shape != data.shape but equal size
+    reshapes m in C order; reshaping a masked array with order=O reshapes data and mask
+    with O."""
+
+    def __init__(self, repo, grid_order):
+        super().__init__(repo)
+        self.grid_order = grid_order
+
+    def call_hook(self, fv, args, kwargs, node, mod):
+        if isinstance(fv, Closure):
+            n = getattr(fv.func, "name", "")
+            if n == "is_quantified":
+                return False
+            if n in ("compatible_units", "equivalent_units"):
+                return True
+        if isinstance(fv, Sym) and fv.op == "reshape_of":
+            src = fv.args[0].obj
+            shp = tuple(args[0]) if isinstance(args[0], (list, tuple)) else (args[0],)
+            order = kwargs.get("order", "C")
+            m = src.fields["masked"]
+            if m is not None:
+                kind, mshape = m
+                if kind == "C-raveled-from":
+                    # data values are placed with `order`, mask entries were flattened with C
+                    m = ("exact", mshape) if order == "C" else ("scrambled", mshape, order)
+                elif kind == "raveled-with-order":
+                    m = ("exact", mshape) if order == m[2] else ("scrambled", mshape, order)
+            n = _marr(shp, m, "reshaped")
+            return n
+        return super().call_hook(fv, args, kwargs, node, mod)
+
+    def get_attr(self, obj, attr, node, mod):
+        if isinstance(obj, _MArr) and attr == "reshape":
+            return Sym("reshape_of", Ref(obj))
+        if isinstance(obj, _MArr) and attr == "copy":
+            return Sym("ident", Ref(obj))
+        if isinstance(obj, Obj) and obj.label in ("info", "grid") and attr in obj.fields:
+            return obj.fields[attr]
+        return super().get_attr(obj, attr, node, mod)
+
+    def isinstance(self, v, klass, node):
+        from ..loader import Class
+        if isinstance(klass, Class) and isinstance(v, Obj) and v.label == "grid":
+            return klass.name in ("Grid", "GridBase")
+        if isinstance(klass, Sym) and klass.op == "ext" and klass.args[0].endswith("ndarray"):
+            return isinstance(v, _MArr)
+        return super().isinstance(v, klass, node)
+
+    def ext_call(self, name, args, kwargs, node):
+        short = name.split(".")[-1]
+        if short == "isarray" and "ma" in name:
+            return isinstance(args[0], _MArr) and args[0].fields["masked"] is not None
+        if name.endswith("ma.array"):
+            data = kwargs.get("data", args[0] if args else None)
+            mask = kwargs.get("mask")
+            if not isinstance(data, _MArr):
+                raise AnalysisError("np.ma.array on a non-array")
+            mshape = mask.fields["shape"] if isinstance(mask, _MArr) else None
+            if mshape is None:
+                raise AnalysisError("mask of unknown shape")
+            dshape = data.fields["shape"]
+            lead = tuple(x for x in dshape)
+            while lead and lead[0] == 1 and len(lead) > len(mshape):
+                lead = lead[1:]
+            if tuple(mshape) == tuple(dshape) or lead == tuple(mshape):
+                tag = ("exact", tuple(mshape))
+            elif mask.fields["size"] == data.fields["size"]:
+                flat_in_grid_order = mask.fields.get("raveled_with")
+                if flat_in_grid_order is not None and len(dshape) > 1:
+                    # numpy.ma re-expands a flat mask onto non-flat data with a C-order reshape
+                    oshape = tuple(mask.fields.get("orig_shape", mshape))
+                    tag = ("exact", oshape) if flat_in_grid_order == "C" else ("scrambled", oshape, "C")
+                elif flat_in_grid_order is not None:
+                    tag = ("raveled-with-order", tuple(mask.fields.get("orig_shape", mshape)), flat_in_grid_order)
+                else:
+                    tag = ("C-raveled-from", tuple(mshape))
+            else:
+                self.on_raise(Sym("exc", "MaskError", "mask and data not compatible"), node)
+            return _marr(dshape, tag, "masked")
+        if short == "ravel" and isinstance(args[0], _MArr):
+            order = kwargs.get("order", args[1] if len(args) > 1 else "C")
+            n = _marr((args[0].fields["size"],), None, "raveled-mask")
+            n.fields["raveled_with"] = order
+            n.fields["orig_shape"] = args[0].fields["shape"]
+            return n
+        if short in ("ndim",) and isinstance(args[0], _MArr):
+            return args[0].fields["ndim"]
+        if short in ("shape",) and isinstance(args[0], _MArr):
+            return args[0].fields["shape"]
+        if short == "expand_dims" and isinstance(args[0], _MArr):
+            return _marr((1,) + tuple(args[0].fields["shape"]), args[0].fields["masked"], "expanded")
+        if short == "Quantity":
+            return args[0]
+        if short == "asarray":
+            return args[0]
+        return super().ext_call(name, args, kwargs, node)
+
+    def call(self, fv, args, kwargs, node, mod):
+        if isinstance(fv, Sym) and fv.op == "ident":
+            return fv.args[0].obj
+        return super().call(fv, args, kwargs, node, mod)
+
+    def compare(self, op, left, right, node):
+        if isinstance(op, (ast.Eq, ast.NotEq)) and isinstance(left, tuple) and isinstance(right, tuple):
+            eq = tuple(left) == tuple(right)
+            return eq if isinstance(op, ast.Eq) else not eq
+        return super().compare(op, left, right, node)
+
+
+def r37p_prepare_mask(repo, sink):
+    """prepare() applies exactly info.mask: for data given in the grid's shape, with the time
+    axis, or flat in the grid's memory order, every mask entry must end up on the cell it
+    belongs to."""
+    f = repo.func("src/finam/data/tools/core.py", "prepare")
+    worst = None
+    n = 0
+    for order in ("C", "F"):
+        for shape in ((3, 2), (1, 3, 2), (6,)):
+            n += 1
+            grid = Obj(label="grid")
+            grid.fields.update(data_shape=(3, 2), data_size=6, order=order)
+            mask = _marr((3, 2), None, "info.mask")
+            info = Obj(label="info")
+            info.fields.update(units=Sym("u"), is_masked=True, mask=mask, fill_value=None, grid=grid)
+            it = _PrepMaskInterp(repo, order)
+            try:
+                got = it.run(f, [_marr(shape), info])
+            except Raised as r:
+                worst = worst or f"data of shape {shape} on a {order}-ordered grid with a fixed (3, 2) mask: raises {r.name}"
+                continue
+            except (Undecided, AnalysisError) as exc:
+                sink.unknown("R37", "prepare-mask-alignment", f, f"prepare outside vocabulary: {exc}")
+                return
+            m = got.fields.get("masked") if isinstance(got, _MArr) else None
+            ok = m is not None and (m[0] == "exact" or (m[0] == "raveled-with-order" and m[2] == order and got.fields["shape"] == (1, 3, 2)))
+            if m is not None and m[0] == "raveled-with-order":
+                # flattened with the grid order, then reshaped with the grid order: aligned
+                ok = m[2] == order
+            if got is not None and isinstance(got, _MArr) and got.fields["shape"] != (1, 3, 2):
+                ok = False
+            if not ok:
+                how = {"scrambled": ("a mask flattened in the grid's order is re-expanded onto non-flat data by numpy.ma with a C-order reshape"
+                                     if len(shape) > 1 else "the mask was flattened in C order by numpy.ma but the data is reshaped in the grid's order"),
+                       "C-raveled-from": "the mask stays flattened in C order"}.get(m[0] if m else "", "no mask applied")
+                worst = worst or (f"data of shape {shape} on a {order}-ordered grid with a fixed (3, 2) mask: the applied mask is not info.mask "
+                                  f"({how}): masked and unmasked cells are permuted")
+    sink.check(worst is None, "R37", "prepare-mask-alignment", f,
+               ok=f"{n} cases (grid shape, with time axis, flat; C and F order): the applied mask is exactly info.mask", bad=worst or "")
